@@ -343,14 +343,25 @@ pub(crate) fn in_directive() -> bool {
 
 pub(crate) fn begin_directive() {
     IN_DIRECTIVE.with(|x| x.borrow_mut().push(()));
+    #[cfg(feature = "verif-hooks")]
+    crate::verif_hooks::event(crate::verif_hooks::EventKind::BeginDirective, verif_directive_depth());
 }
 
 pub(crate) fn end_directive() {
     IN_DIRECTIVE.with(|x| x.borrow_mut().pop());
+    #[cfg(feature = "verif-hooks")]
+    crate::verif_hooks::event(crate::verif_hooks::EventKind::EndDirective, verif_directive_depth());
 }
 
 pub(crate) fn clear_directive() {
     IN_DIRECTIVE.with(|x| x.borrow_mut().clear());
+    #[cfg(feature = "verif-hooks")]
+    crate::verif_hooks::event(crate::verif_hooks::EventKind::ClearDirective, 0);
+}
+
+#[cfg(feature = "verif-hooks")]
+pub(crate) fn verif_directive_depth() -> usize {
+    IN_DIRECTIVE.with(|x| x.borrow().len())
 }
 
 // -----------------------------------------------------------------------------
@@ -389,12 +400,21 @@ pub(crate) fn begin_keywords(version: &str) {
         "directive" => current_version.borrow_mut().push(Version::Directive),
         _ => (),
     });
+    #[cfg(feature = "verif-hooks")]
+    crate::verif_hooks::event(crate::verif_hooks::EventKind::BeginKeywords, verif_version_stack().len());
 }
 
 pub(crate) fn end_keywords() {
     CURRENT_VERSION.with(|current_version| {
         current_version.borrow_mut().pop();
     });
+    #[cfg(feature = "verif-hooks")]
+    crate::verif_hooks::event(crate::verif_hooks::EventKind::EndKeywords, verif_version_stack().len());
+}
+
+#[cfg(feature = "verif-hooks")]
+pub(crate) fn verif_version_stack() -> Vec<String> {
+    CURRENT_VERSION.with(|x| x.borrow().iter().map(|v| format!("{:?}", v)).collect())
 }
 
 pub(crate) fn current_version() -> Option<Version> {
@@ -408,6 +428,8 @@ pub(crate) fn clear_version() {
     CURRENT_VERSION.with(|current_version| {
         current_version.borrow_mut().clear();
     });
+    #[cfg(feature = "verif-hooks")]
+    crate::verif_hooks::event(crate::verif_hooks::EventKind::ClearVersion, 0);
 }
 
 // -----------------------------------------------------------------------------
